@@ -27,7 +27,7 @@ use common::*;
 
 fn main() {
   let args: Vec<String> = std::env::args().collect();
-  if args.len() < 5 && !(args.len() >= 2 && (args[1] == "eval" || args[1] == "emit" || args[1] == "loadone" || args[1] == "fmtp" || args[1] == "doc" || args[1] == "fsm" || args[1] == "bc" || args[1] == "sess" || args[1] == "steps")) {
+  if args.len() < 5 && !(args.len() >= 2 && (args[1] == "eval" || args[1] == "emit" || args[1] == "loadone" || args[1] == "fmtp" || args[1] == "doc" || args[1] == "fsm" || args[1] == "bc" || args[1] == "planp" || args[1] == "sess" || args[1] == "steps")) {
     eprintln!("usage: mvh <prop> <seed> <quick|thorough|replay> <outdir> [replay-file]");
     std::process::exit(2);
   }
@@ -70,6 +70,15 @@ fn main() {
     use std::io::Read;
     std::io::stdin().read_to_string(&mut text).unwrap();
     for l in text.lines() { if l.trim().is_empty() { continue; } let src = l.replace("\\n", "\n"); println!("{:40} => {}", l, c06::run(&src)); }
+    return;
+  }
+  if args.len() >= 2 && args[1] == "planp" {
+    // probing aid: each stdin line is a program (literal \\n for newlines); prints every plan step's to_string() and the compiled instruction stream
+    std::panic::set_hook(Box::new(|_| {}));
+    let mut text = String::new();
+    use std::io::Read;
+    std::io::stdin().read_to_string(&mut text).unwrap();
+    for l in text.lines() { if l.trim().is_empty() { continue; } let src = l.replace("\\n", "\n"); println!("PROGRAM {}\n{}", l, c06::plan_probe(&src)); }
     return;
   }
   if args.len() >= 2 && args[1] == "fsm" {
@@ -200,6 +209,6 @@ fn main() {
       Err(_) => "hostpanic".to_string(),
     }
   });
-  for (c, o) in cases.into_iter().zip(obs.into_iter()) { sink.case(c, o); }
+  for (c, o) in cases.into_iter().zip(obs.into_iter()) { if prop == "C06" { c06::tally(&c, &o, &mut sink); } sink.case(c, o); }
   sink.write(outdir);
 }
